@@ -53,14 +53,15 @@ STEP_CAP = 40000
 class Counting:
     """Scorer handed in through ``scorer=``; delegates to the real one."""
 
-    def __init__(self, log, inner):
+    def __init__(self, log, inner, cap=None):
         self.log = log
         self.inner = inner
         self.n = 0
+        self.cap = cap or STEP_CAP
 
     def _tick(self):
         self.n += 1
-        if self.n > STEP_CAP:
+        if self.n > self.cap:
             raise StepCap()
 
     def score(self, txt, ts, pp):
@@ -74,7 +75,7 @@ class Counting:
         return self.inner.score_final(txt, ts, pp, prod)
 
 
-def _mk_scorer(lib, kind, log):
+def _mk_scorer(lib, kind, log, cap=None):
     if kind in ("default", "default_none"):
         # the library's own scorer object, not wrapped (or not passed at all): its work is
         # counted one level down, per document row handed to the model (see Instrument)
@@ -83,7 +84,7 @@ def _mk_scorer(lib, kind, log):
         inner = lib["scorer"].DummyScorer()
     else:
         inner = lib["ctparse"]._DEFAULT_SCORER
-    sc = Counting(log, inner)
+    sc = Counting(log, inner, cap)
     lib["scorer"].Scorer.register(Counting)
     return sc
 
@@ -91,11 +92,12 @@ def _mk_scorer(lib, kind, log):
 class Instrument:
     """Installs the clock and the counting wrappers; restores on exit."""
 
-    def __init__(self, lib, log, clock, count_model_rows=False):
+    def __init__(self, lib, log, clock, count_model_rows=False, sentinel_cap=None):
         self.lib = lib
         self.log = log
         self.clock = clock
         self.count_model_rows = count_model_rows
+        self.sentinel_cap = sentinel_cap
 
     def __enter__(self):
         lib, log = self.lib, self.log
@@ -129,6 +131,27 @@ class Instrument:
         PP.from_regex_matches = classmethod(from_regex_matches)
         PP.apply_rule = apply_rule
         PP._filter_rules = _filter_rules
+        # step cap on the deadline sentinel itself (only for runs that ask for it: long inputs
+        # whose sequence enumeration calls neither the scorer nor anything else of ours): a
+        # sentinel that is called far more often than the clock could have been read before the
+        # deadline belongs to a run that is not going to stop
+        self.saved_factory = None
+        mod = lib["ctparse"]
+        if self.sentinel_cap and hasattr(mod, "timeout_"):
+            self.saved_factory = mod.timeout_
+            orig_factory, capn = mod.timeout_, self.sentinel_cap
+
+            def factory(*a, **k):
+                inner = orig_factory(*a, **k)
+                n = {"n": 0}
+
+                def sentinel():
+                    n["n"] += 1
+                    if n["n"] > capn:
+                        raise StepCap()
+                    return inner()
+                return sentinel
+            mod.timeout_ = factory
         self.saved_predict = None
         if self.count_model_rows:
             # one scoring = one document row the naive-Bayes model is asked about, whoever
@@ -167,22 +190,26 @@ class Instrument:
         PP._filter_rules = self.saved[3]
         if self.saved_predict is not None:
             self.lib["pipeline"].CTParsePipeline.predict_log_proba = self.saved_predict
+        if self.saved_factory is not None:
+            self.lib["ctparse"].timeout_ = self.saved_factory
         return False
 
 
-def _run(lib, case, timeout, entry, deltas=None, stall_at=None, stall_by=0.0, cstall=None):
+def _run(lib, case, timeout, entry, deltas=None, stall_at=None, stall_by=0.0, cstall=None,
+         cap=None):
     """One execution of the library under the virtual clock.
     Returns (stream or result, log, exception-or-None, clock)."""
     log = []
     clock = VirtualMonotonic(log, deltas=deltas, stall_at=stall_at, stall_by=stall_by)
     o = case["opts"]
-    sc = _mk_scorer(lib, o.get("scorer", "shipped"), log)
+    sc = _mk_scorer(lib, o.get("scorer", "shipped"), log, cap)
     ts = parse_ts(case["ts"])
     kw = dict(ts=ts, timeout=timeout, relative_match_len=o.get("relative_match_len", 1.0),
               max_stack_depth=o.get("max_stack_depth", 10), scorer=sc,
               latent_time=o.get("latent_time", True))
     out, exc = None, None
-    with Instrument(lib, log, clock, o.get("scorer") in ("default", "default_none")):
+    with Instrument(lib, log, clock, o.get("scorer") in ("default", "default_none"),
+                    sentinel_cap=(cap + 2000) if (cap and case.get("no_reference")) else None):
         try:
             if entry == "gen":
                 out = []
@@ -198,7 +225,7 @@ def _run(lib, case, timeout, entry, deltas=None, stall_at=None, stall_by=0.0, cs
                 r = lib["ctparse"].ctparse(case["text"], **kw)
                 out = core.cand_key(r)
         except StepCap:
-            exc = "StepCap: search beyond %d scorer calls" % STEP_CAP
+            exc = "StepCap: search beyond %d scorer calls" % (cap or STEP_CAP)
         except Exception as e:  # the property says: never raises
             exc = "%s: %s" % (type(e).__name__, e)
     return out, log, exc, clock
@@ -292,11 +319,21 @@ def execute(case):
         # expiring check, bounded work between checks, not more than k + 1 reads
         for k in case.get("expiries", []):
             timeout = k - 0.5
-            S, log, exc_, clock = _run(lib, case, timeout, "gen")
+            # under the unit-tick clock a run that honours the deadline makes at most k reads,
+            # hence (one read per unit of work) fewer than k scorings: a run that is still
+            # scoring long after that is not going to stop - and each further step on a
+            # 1200-token sequence costs milliseconds, so it is cut off right there
+            S, log, exc_, clock = _run(lib, case, timeout, "gen", cap=k + 300)
             n_eval += 1
             faults["deadline"] += 1
             probes["long_input_runs"] += 1
             obs.append(["long", k, None if S is None else len(S), clock.n])
+            if exc_ and exc_.startswith("StepCap"):
+                viol("C13.stops-at-first-check", "deadline-not-honoured",
+                     "text=%r... (%d tokens) expiry=%s: still scoring %d scorer calls after the "
+                     "start although the deadline passed at clock read %d (%d reads made)"
+                     % (case["text"][:24], len(case["text"].split()), k, k + 300, k, clock.n))
+                break
             if exc_:
                 viol("C13.raises", "deadline:" + exc_.split(":")[0],
                      "text=%r... (%d tokens) expiry=%s: %s"
@@ -323,9 +360,13 @@ def execute(case):
             if k != case["expiries"][-1]:
                 continue      # (the single-result entry point once per input: each run of a
                 #                1200-token text spends seconds in the quadratic adjacency scan)
-            res, _, exc_c, _ = _run(lib, case, timeout, "call")
+            res, _, exc_c, _ = _run(lib, case, timeout, "call", cap=k + 300)
             n_eval += 1
-            if exc_c:
+            if exc_c and exc_c.startswith("StepCap"):
+                viol("C13.stops-at-first-check", "deadline-not-honoured",
+                     "text=%r... expiry=%s: ctparse() still scoring long after the deadline"
+                     % (case["text"][:24], k))
+            elif exc_c:
                 viol("C13.raises", "deadline-call:" + exc_c.split(":")[0],
                      "text=%r... expiry=%s: ctparse() raised %s" % (case["text"][:24], k, exc_c))
             elif res is None:
